@@ -15,7 +15,7 @@ RULE = ("cases = every exported stepper class x D x order; per case one random t
         "argument name / program); non-trivial = the finite-difference derivative is above 1e-9 of the scale (a vanishing derivative is counted "
         "trivial, still judged)")
 REQUIRED = {"jvp_state": {"quick": 80, "thorough": 300}, "jvp_param": {"quick": 200, "thorough": 700}, "adjoint": {"quick": 80, "thorough": 300},
-            "finite": {"quick": 150, "thorough": 500}, "linear_jacobian": {"quick": 15, "thorough": 50}, "through_rollout": {"quick": 60, "thorough": 200}}
+            "finite": {"quick": 150, "thorough": 500}, "linear_jacobian": {"quick": 15, "thorough": 25}, "through_rollout": {"quick": 60, "thorough": 200}}
 ASSUMPTIONS = ["domain_extent is not among the arguments the property lists (d/dL of Wave is NaN: recorded as an observation, not judged)",
                "a case whose two Richardson estimates disagree by more than 1e-4 of the scale is skipped as FD-unreliable, not judged"]
 TIMEOUT = {"quick": 1500, "thorough": 3400}
